@@ -98,6 +98,8 @@ func (m *Machine) replay() {
 				m.fail("C01", "job #%d is started a second time (seq %d)", j.AcceptIdx, e.Seq)
 				m.fail("C02", "job #%d is started a second time (seq %d)", j.AcceptIdx, e.Seq)
 				m.fail("C03", "job #%d is started a second time (seq %d)", j.AcceptIdx, e.Seq)
+				m.fail("C16", "job #%d is started a second time (seq %d)", j.AcceptIdx, e.Seq)
+				m.fail("C06", "job #%d is started a second time (seq %d)", j.AcceptIdx, e.Seq)
 			} else {
 				mon.startSeq[e.Job] = e.Seq
 				if j.Waited {
